@@ -9,7 +9,8 @@
 //!   put k v | put_ttl k v ttl(long|short) | put_layer k v layer | get k | get_layer k layer |
 //!   promote k from to | remove k | clear | batch_get ks | batch_put items[{k,v}] |
 //!   put_val k v ck | get_val k ck(value name | "none") | tick |
-//!   corrupt k | delete k | trunc0 k | trunc1 k | extend1 k   (environment: the disk layer's file of k)
+//!   corrupt k | delete k | trunc0 k | trunc1 k | extend1 k  [layer i]  (environment: the file of k in disk
+//!   layer i, default the first disk layer)
 //! Value "e" is the empty value.
 //! Events: {"op":"new",...config} then one per operation: the operation's fields + "seq",
 //! "res" (a string: value name / "none" / "ok" / "true" / "false" / "err" / "panic"), "rs" for
@@ -37,11 +38,12 @@ const LONG_TTL: Duration = Duration::from_secs(3600);
 fn value_bytes(v: &str) -> Vec<u8> {
     match v {
         "e" => vec![], // the empty value
+        "big" => vec![b'B'; 64], // larger than every byte budget the programs give a memory layer
         "bad" => b"\xffcorrupted file content\x00".to_vec(),
         _ => format!("payload<{v}>{}", "#".repeat(v.len() * 3)).into_bytes(),
     }
 }
-const VALUE_NAMES: [&str; 6] = ["v1", "v2", "v3", "v4", "e", "bad"];
+const VALUE_NAMES: [&str; 7] = ["v1", "v2", "v3", "v4", "e", "big", "bad"];
 /// Name of a byte string: a value, a value without its last byte ("v1-"), a value with one more byte
 /// ("v1+", "e+"), or "other".
 fn value_name(b: &[u8]) -> String {
@@ -122,7 +124,7 @@ fn strategy(name: &str) -> PromotionStrategy {
 struct Run {
     rt: tokio::runtime::Runtime,
     cache: MultiLayerCacheImpl<RibbitKey>,
-    disk_dir: Option<PathBuf>,
+    disk_dirs: Vec<Option<PathBuf>>, // per layer
     keys: Vec<String>,
     nlayers: usize,
     _dir: tempfile::TempDir,
@@ -140,11 +142,11 @@ fn new_run(prog: &Value) -> Run {
     let kinds: Vec<String> = prog["kinds"].as_array().unwrap().iter().map(|x| x.as_str().unwrap().to_string()).collect();
     let caps: Vec<u64> = prog["caps"].as_array().unwrap().iter().map(|x| x.as_u64().unwrap()).collect();
     let mut cfg = MultiLayerCacheConfig::new().with_promotion_strategy(strategy(prog["strategy"].as_str().unwrap_or("on_hit")));
-    let mut disk_dir = None;
+    let mut disk_dirs = vec![None; kinds.len()];
     for (i, k) in kinds.iter().enumerate() {
         if k == "disk" {
             let d = dir.path().join(format!("layer{i}"));
-            disk_dir = Some(d.clone());
+            disk_dirs[i] = Some(d.clone());
             cfg = cfg.add_disk_layer(DiskCacheConfig::new(d).with_max_files(caps[i] as usize).with_default_ttl(LONG_TTL));
         } else {
             let mut m = MemoryCacheConfig::new()
@@ -173,7 +175,7 @@ fn new_run(prog: &Value) -> Run {
         }
     }
     let keys = prog["keys"].as_array().unwrap().iter().map(|x| x.as_str().unwrap().to_string()).collect();
-    Run { rt, cache, disk_dir, keys, nlayers: kinds.len(), _dir: dir }
+    Run { rt, cache, disk_dirs, keys, nlayers: kinds.len(), _dir: dir }
 }
 
 fn find_file(dir: &Path, name: &str) -> Option<PathBuf> {
@@ -263,7 +265,12 @@ fn exec(run: &Run, op: &Value) -> (String, Option<Vec<String>>) {
         }
         // environment: damage the disk layer's file of the key; "now" = what the file holds afterwards
         "corrupt" | "delete" | "trunc0" | "trunc1" | "extend1" => {
-            let f = run.disk_dir.as_ref().and_then(|d| find_file(d, key(s(op, "k")).as_cache_key()));
+            // the disk layer named by "layer" (0-based), else the first disk layer
+            let dir = match op.get("layer").and_then(Value::as_u64) {
+                Some(i) => run.disk_dirs.get(i as usize).cloned().flatten(),
+                None => run.disk_dirs.iter().flatten().next().cloned(),
+            };
+            let f = dir.as_ref().and_then(|d| find_file(d, key(s(op, "k")).as_cache_key()));
             return match f {
                 Some(p) => {
                     let old = std::fs::read(&p).expect("driver: read file");
@@ -386,11 +393,12 @@ fn run_random(prog: &Value, out: &Emit) {
     let mut rng = Rng::new(prog["random"].as_u64().unwrap());
     let len = prog["len"].as_u64().unwrap() as usize;
     let avoid = prog["avoid_hang"].as_bool().unwrap_or(false);
-    let layout = rng.below(4);
+    let layout = rng.below(5);
     let c0 = 1 + rng.below(3);
     let (kinds, caps): (Vec<&str>, Vec<u64>) = match layout {
         0 | 1 => (vec!["mem", "disk"], vec![c0, 1000]),
         2 => (vec!["mem", "mem", "disk"], vec![c0, 1 + rng.below(3), 1000]),
+        3 => (vec!["mem", "disk", "disk"], vec![c0, 1000, 1000]),
         _ => (vec!["mem", "mem"], vec![c0, 2 + rng.below(2)]),
     };
     let nk = 2 + rng.below(3) as usize;
@@ -401,7 +409,7 @@ fn run_random(prog: &Value, out: &Emit) {
     let budget = if rng.chance(1, 3) { *rng.pick(&[40u64, 60]) } else { 0 };
     let policies: Vec<&str> = kinds.iter().map(|k| if *k == "mem" { *rng.pick(&["lru", "lfu", "fifo", "random", "ttl"]) } else { "lru" }).collect();
     let budgets: Vec<u64> = kinds.iter().map(|k| if *k == "mem" { budget } else { 0 }).collect();
-    let vals = ["v1", "v2", "v3", "e"];
+    let vals: &[&str] = if budget > 0 { &["v1", "v2", "v3", "e", "big"] } else { &["v1", "v2", "v3", "e"] };
     let strat = *rng.pick(&["on_hit", "after2", "freq", "age", "manual"]);
     let hookimpl = *rng.pick(&["md5", "ngdp"]);
     let cfg = json!({"kinds": kinds, "caps": caps, "budgets": budgets, "policies": policies, "hooks": rng.chance(1, 2),
@@ -413,7 +421,7 @@ fn run_random(prog: &Value, out: &Emit) {
     let mut ticks = 0;
     for seq in 1..=len as u64 {
         let k = rng.pick(&keys).clone();
-        let v = *rng.pick(&vals);
+        let v = *rng.pick(vals);
         // layer index, sometimes one past the last layer
         let lay = |rng: &mut Rng, den: u64| rng.below(nl) + if rng.chance(1, den) && rng.chance(1, 2) { nl - rng.below(nl) } else { 0 };
         let (l1, l2) = (lay(&mut rng, 6), lay(&mut rng, 5));
@@ -432,11 +440,15 @@ fn run_random(prog: &Value, out: &Emit) {
             }
             79..=82 => {
                 let m = rng.below(4) as usize;
-                json!({"op": "batch_put", "items": (0..m).map(|_| json!({"k": rng.pick(&keys).clone(), "v": *rng.pick(&vals)})).collect::<Vec<_>>()})
+                json!({"op": "batch_put", "items": (0..m).map(|_| json!({"k": rng.pick(&keys).clone(), "v": *rng.pick(vals)})).collect::<Vec<_>>()})
             }
-            83..=87 => json!({"op": "put_val", "k": k, "v": v, "ck": if rng.chance(2, 3) { v } else { *rng.pick(&vals) }}),
-            88..=93 => json!({"op": "get_val", "k": k, "ck": if rng.chance(1, 4) { "none" } else { *rng.pick(&vals) }}),
-            94..=98 => json!({"op": *rng.pick(&["corrupt", "delete", "trunc0", "trunc0", "trunc1", "extend1"]), "k": k}),
+            83..=87 => json!({"op": "put_val", "k": k, "v": v, "ck": if rng.chance(2, 3) { v } else { *rng.pick(vals) }}),
+            88..=93 => json!({"op": "get_val", "k": k, "ck": if rng.chance(1, 4) { "none" } else { *rng.pick(vals) }}),
+            94..=98 => {
+                let f = *rng.pick(&["corrupt", "delete", "delete", "trunc0", "trunc0", "trunc1", "extend1"]);
+                let disks: Vec<u64> = (0..nl).filter(|i| kinds[*i as usize] == "disk").collect();
+                if disks.len() > 1 { json!({"op": f, "k": k, "layer": *rng.pick(&disks)}) } else { json!({"op": f, "k": k}) }
+            }
             _ => {
                 if ticks < 2 {
                     ticks += 1;
